@@ -36,6 +36,7 @@ class CaseGen:
         self.readpend = [dict() for _ in range(nranks)]  # rank -> h -> set((var,elem)) of pending gets
         self.pending = [dict() for _ in range(nranks)]   # rank -> h -> info
         self.nexth = [0] * nranks
+        self.numrecs = NREC0                             # spec value (single-rank cases only)
         self.indep = False
         self.abuf = 0
         self.meta = []                                   # per script line: dict for the oracle
@@ -69,7 +70,9 @@ class CaseGen:
         banddim = (1 if VISREC[var] else 0) if nd > (1 if VISREC[var] else 0) else None
         for d in range(nd):
             if dims[d] is None:     # record dimension
-                hi = MAXREC if kind != 'get' else NREC0
+                # with several ranks the record count is a cross-rank quantity (property C05): stay inside the
+                # existing records there, so that every numrecs deviation is attributed to the wait that caused it
+                hi = MAXREC if (kind != 'get' and self.nranks == 1) else NREC0
                 lo = 0
             elif d == banddim:
                 lo, hi = self.band(rank, dims[d])
@@ -118,6 +121,11 @@ class CaseGen:
                 s, c, st = g
                 if api == 'n':
                     st = [1] * nd
+                    if VISREC[var]:
+                        # a varn sub-request spanning several records corrupts memory in the library (F20: per-record
+                        # nelems not divided by the record count, in blocking varn as well); the random stream keeps
+                        # one record per sub-request so that the harness survives; one fixed case ties the model
+                        c = [1] + list(c[1:])
                 el = [(var,) + e for e in self.elems(var, s, c, st)] if nd > 0 else [(var,)]
                 if kind != 'get':
                     if any(e in self.written[var] for e in el) or any(e in allel for e in el):
@@ -142,8 +150,10 @@ class CaseGen:
             zero = 1
         bad = 0
         if nd > 0 and zero == 0 and rng.chance(1, 30):
-            s, c, st = subs[0]; s = list(s); d = rng.below(nd)
-            s[d] = (VDIMS[var][d] or 1000) + 5; subs[0] = (s, c, st); zero = 2; bad = 1
+            # an out-of-range start in a fixed dimension (the record dimension may legally grow for a put)
+            s, c, st = subs[0]; s = list(s)
+            d = rng.choice([k for k in range(nd) if VDIMS[var][k] is not None])
+            s[d] = VDIMS[var][d] + 5; subs[0] = (s, c, st); zero = 2; bad = 1
         h = self.nexth[rank]
         if h >= 120:
             return False
@@ -157,17 +167,33 @@ class CaseGen:
                 continue
             nsubs += (c[0] if VISREC[var] else 1)
         start0 = subs[0][0][0] if nd > 0 else 0
-        toks = ['P', rank, h, kind, var, api, zero, nsubs, start0, erange, mt, bl, imap, nreq]
+        with_stride = False
+        if api == 's' or (api == 'm' and rng.chance(1, 2)):
+            with_stride = True
+        elif api == 'm' and any(x != 1 for x in subs[0][2]):
+            with_stride = True       # varm without stride argument only when all strides are 1
+        maxrec = -1
+        if VISREC[var] and zero == 0:
+            if api == 'n':
+                for (s, c, st) in subs:
+                    ne = 1
+                    for x in c:
+                        ne *= x
+                    if ne:
+                        maxrec = max(maxrec, s[0] + c[0])
+            else:
+                s, c, st = subs[0]
+                if with_stride and any(x > 1 for x in st):
+                    maxrec = s[0] + st[0] * (c[0] - 1) + 1
+                else:
+                    maxrec = s[0] + c[0]
+        toks = ['P', rank, h, kind, var, api, zero, nsubs, start0, erange, maxrec, mt, bl, imap, nreq]
         for (s, c, st) in subs:
             toks += list(s) + list(c)
-        if api == 's' or (api == 'm' and rng.chance(1, 2)):
+        if with_stride:
             toks += list(subs[0][2])
-        elif api == 'm':
-            # varm without stride: strides must all be 1 in the element set
-            if any(x != 1 for x in subs[0][2]):
-                toks += list(subs[0][2])
         self.lines.append(' '.join(str(t) for t in toks))
-        info = dict(h=h, kind=kind, var=var, erange=erange, el=set(allel), zero=zero, api=api, nsubs=nsubs)
+        info = dict(h=h, kind=kind, var=var, erange=erange, el=set(allel), zero=zero, api=api, nsubs=nsubs, maxrec=maxrec)
         self.meta.append(dict(op='P', rank=rank, info=info))
         if zero == 0:
             self.pending[rank][h] = info
@@ -239,11 +265,14 @@ class CaseGen:
             for b in gets[i + 1:]:
                 if self.pending[rank][a]['el'] & self.pending[rank][b]['el']:
                     overl.add(a); overl.add(b)
-        self_overl = set()
+        if not cancel:
+            for h in exp:
+                if self.pending[rank][h]['kind'] != 'get':
+                    self.numrecs = max(self.numrecs, self.pending[rank][h]['maxrec'])
         self.meta.append(dict(op='X' if cancel else 'W', rank=rank, num=num, hasst=hasst, toks=list(toks), exp=list(exp),
                               expn=expn, misuse=misuse, shortcut=shortcut, overl=sorted(overl),
                               erange={h: self.pending[rank][h]['erange'] for h in exp},
-                              pend_before=len(pend)))
+                              pend_before=len(pend), numrecs=self.numrecs if self.nranks == 1 else None))
         self.complete(rank, exp)
         return misuse
 
@@ -285,9 +314,12 @@ class CaseGen:
             for rank in range(self.nranks):
                 pend = sorted(self.pending[rank].keys())
                 self.lines.append('W %d c -1 0 0 0  %d %s' % (rank, len(pend), ' '.join(str(h) for h in pend)))
+                for h in pend:
+                    if self.pending[rank][h]['kind'] != 'get':
+                        self.numrecs = max(self.numrecs, self.pending[rank][h]['maxrec'])
                 self.meta.append(dict(op='W', rank=rank, num=-1, hasst=0, toks=[], exp=pend, expn=0, misuse=None, shortcut=None,
                                       overl=self._overl(rank, pend), erange={h: self.pending[rank][h]['erange'] for h in pend},
-                                      pend_before=len(pend)))
+                                      pend_before=len(pend), numrecs=self.numrecs if self.nranks == 1 else None))
                 self.complete(rank, pend)
         for rank in range(self.nranks):
             self.lines.append('END %d' % rank); self.meta.append(dict(op='END', rank=rank))
@@ -304,33 +336,38 @@ class CaseGen:
         return sorted(o)
 
 
+def _w(num, hasst, toks, exp, expn, pend_before, shortcut=None, misuse=None, overl=(), erange=None, numrecs=NREC0):
+    return dict(op='W', rank=0, num=num, hasst=hasst, toks=list(toks), exp=list(exp), expn=expn, misuse=misuse, shortcut=shortcut,
+                overl=list(overl), erange=erange or {h: 0 for h in exp}, pend_before=pend_before, numrecs=numrecs)
+
+
+_P = dict(op='P', rank=0)
+_END = dict(op='END', rank=0)
+# every known finding of C02 is replayed on the real library by one fixed case (single rank)
 FIXED_CASES = [
-    # F4 (a): statuses returned by queue position, not by req_ids order (get_all shortcut)
-    ['P 0 0 get 7 a 0 1 0 1 3 0 0 1 0 4', 'P 0 1 get 0 a 0 1 0 0 0 0 0 1 0 0 2 3', 'W 0 c 2 1 0 2 h1 h0 2 0 1', 'END 0'],
-    # F4 (b): wait_all(2,[A,NC_REQ_NULL]) with two pending puts completes both
-    ['P 0 0 put 0 a 0 1 0 0 0 0 0 1 0 0 2 3', 'P 0 1 put 1 a 0 1 0 0 0 0 0 1 2 3', 'W 0 c 2 1 1 2 h0 N 1 0', 'W 0 c 1 1 0 1 h1 1 1', 'END 0'],
+    # F4a: statuses returned by queue position, not by req_ids order (get_all shortcut)
+    (['P 0 0 get 7 a 0 1 0 1 -1 3 0 0 1 0 4', 'P 0 1 get 0 a 0 1 0 0 -1 0 0 0 1 0 0 2 3', 'W 0 c 2 1 0 2 h1 h0 2 0 1', 'END 0'],
+     [_P, _P, _w(2, 1, ['h1', 'h0'], [1, 0], 0, 2, shortcut='get_all', erange={0: 1, 1: 0}), _END], {}),
+    # F4b: wait_all(2,[A,NC_REQ_NULL]) with two pending puts completes both
+    (['P 0 0 put 0 a 0 1 0 0 -1 0 0 0 1 0 0 2 3', 'P 0 1 put 1 a 0 1 0 0 -1 0 0 0 1 2 3', 'W 0 c 2 1 1 2 h0 N 1 0', 'W 0 c 1 1 0 1 h1 1 1', 'END 0'],
+     [_P, _P, _w(2, 1, ['h0', 'N'], [0], 1, 2, shortcut='put_all'), _w(1, 1, ['h1'], [1], 0, 1), _END], {}),
     # F13: two identical iget_vara in one wait_all, a pending put keeps the subset path
-    ['P 0 0 get 0 a 0 1 0 0 0 0 0 1 1 1 2 3', 'P 0 1 get 0 a 0 1 0 0 0 0 0 1 1 1 2 3', 'P 0 2 put 1 a 0 1 0 0 0 0 0 1 2 3',
-     'W 0 c 2 1 1 2 h0 h1 2 0 1', 'W 0 c -1 0 0 0  1 2', 'END 0'],
-    # stale NC_REQ_TO_FREE after a refused wait
-    ['P 0 0 put 0 a 0 1 0 0 0 0 0 1 0 0 2 3', 'P 0 1 put 1 a 0 1 0 0 0 0 0 1 2 3', 'P 0 2 get 0 a 0 1 0 0 0 0 0 1 1 1 2 3',
-     'W 0 c 2 1 1 2 h0 U998 1 0', 'END 0'],
-]
-FIXED_META = [
-    [dict(op='P', rank=0), dict(op='P', rank=0),
-     dict(op='W', rank=0, num=2, hasst=1, toks=['h1', 'h0'], exp=[1, 0], expn=0, misuse=None, shortcut='get_all', overl=[], erange={0: 1, 1: 0}, pend_before=2),
-     dict(op='END', rank=0)],
-    [dict(op='P', rank=0), dict(op='P', rank=0),
-     dict(op='W', rank=0, num=2, hasst=1, toks=['h0', 'N'], exp=[0], expn=1, misuse=None, shortcut='put_all', overl=[], erange={0: 0}, pend_before=2),
-     dict(op='W', rank=0, num=1, hasst=1, toks=['h1'], exp=[1], expn=0, misuse=None, shortcut=None, overl=[], erange={1: 0}, pend_before=1),
-     dict(op='END', rank=0)],
-    [dict(op='P', rank=0), dict(op='P', rank=0), dict(op='P', rank=0),
-     dict(op='W', rank=0, num=2, hasst=1, toks=['h0', 'h1'], exp=[0, 1], expn=1, misuse=None, shortcut=None, overl=[0, 1], erange={0: 0, 1: 0}, pend_before=3),
-     dict(op='W', rank=0, num=-1, hasst=0, toks=[], exp=[2], expn=0, misuse=None, shortcut=None, overl=[], erange={2: 0}, pend_before=1),
-     dict(op='END', rank=0)],
-    [dict(op='P', rank=0), dict(op='P', rank=0), dict(op='P', rank=0),
-     dict(op='W', rank=0, num=2, hasst=1, toks=['h0', 'U998'], exp=[0], expn=2, misuse='unknown', shortcut=None, overl=[], erange={0: 0}, pend_before=3),
-     dict(op='END', rank=0)],
+    (['P 0 0 get 0 a 0 1 0 0 -1 0 0 0 1 1 1 2 3', 'P 0 1 get 0 a 0 1 0 0 -1 0 0 0 1 1 1 2 3', 'P 0 2 put 1 a 0 1 0 0 -1 0 0 0 1 2 3',
+      'W 0 c 2 1 1 2 h0 h1 2 0 1', 'W 0 c -1 0 0 0  1 2', 'END 0'],
+     [_P, _P, _P, _w(2, 1, ['h0', 'h1'], [0, 1], 1, 3, overl=[0, 1]), _w(-1, 0, [], [2], 0, 1), _END], {}),
+    # F19: stale NC_REQ_TO_FREE after a refused wait
+    (['P 0 0 put 0 a 0 1 0 0 -1 0 0 0 1 0 0 2 3', 'P 0 1 put 1 a 0 1 0 0 -1 0 0 0 1 2 3', 'P 0 2 get 0 a 0 1 0 0 -1 0 0 0 1 1 1 2 3',
+      'W 0 c 2 1 1 2 h0 U998 1 0', 'END 0'],
+     [_P, _P, _P, _w(2, 1, ['h0', 'U998'], [0], 2, 3, misuse='unknown'), _END], {}),
+    # F20 (tie only): iput_varn with one sub-request spanning two records.  The per-record requests get twice the
+    # element count (visible in the queue dump, reproduced by Model.ReqQueue.splitVarn); the blocking put_varn runs
+    # through the same code, so the C02 oracle (nonblocking == blocking) cannot see it — it is a C01/C13 finding.
+    (['P 0 0 put 2 n 0 2 0 0 2 0 0 0 1 0 0 2 8', 'W 0 c -1 0 0 0  1 0', 'END 0'],
+     [_P, _w(-1, 0, [], [0], 0, 1), _END], {}),
+    # F21: subset wait completing a record put that is not at the front of the put queue: numrecs not raised
+    (['P 0 0 put 5 a 0 1 0 0 -1 0 0 0 1 0 0 1 2', 'P 0 1 put 2 a 0 1 3 0 4 0 0 0 1 3 0 1 2', 'P 0 2 get 0 a 0 1 0 0 -1 0 0 0 1 1 1 2 3',
+      'W 0 c 1 1 2 1 h1 1 1', 'W 0 c -1 0 0 0  2 0 2', 'END 0'],
+     [_P, _P, _P, _w(1, 1, ['h1'], [1], 2, 3, numrecs=4), _w(-1, 0, [], [0, 2], 0, 2, numrecs=4), _END], {}),
 ]
 
 
@@ -353,6 +390,13 @@ def ints(s):
     return [] if s in ('-', '', None) else [int(x) for x in s.split(',')]
 
 
+def numrecs_of(line):
+    try:
+        return int(line.rsplit(' R:', 1)[1])
+    except Exception:
+        return None
+
+
 def judge_case(lines_out, metas):
     """lines_out: the harness output lines of one rank for one case (in order, incl. D lines);
        metas: the script meta entries of that rank for that case (in script order).
@@ -368,6 +412,14 @@ def judge_case(lines_out, metas):
         while i < len(out) and out[i].startswith('D '):
             ds.append(out[i]); i += 1
         return ds
+
+    def take_de():
+        nonlocal i
+        ds = []
+        while i < len(out) and out[i].startswith('DE '):
+            ds.append(out[i]); i += 1
+        return ds
+    flags = metas[0] if metas and metas[0]['op'] == 'CASE' else {}
     for m in metas:
         if m['op'] == 'CASE':
             # CASE line printed once per rank
@@ -378,11 +430,11 @@ def judge_case(lines_out, metas):
                 return ('harness-setup', ds[0])
             continue
         if m['op'] == 'END':
-            ds = take_d()
+            ds = take_de()
             if i < len(out) and out[i] == 'END':
                 i += 1
             for d in ds:
-                if d.startswith('D file-compare equal'):
+                if d.startswith('DE file-compare equal'):
                     continue
                 return ('end-of-case', d)
             continue
@@ -448,6 +500,11 @@ def judge_case(lines_out, metas):
                     return ('wait-status', '%s expected st=%s' % (line.split(' | ')[0], want))
         if err != want_err:
             return ('wait-return-code', '%s expected err=%d' % (line.split(' | ')[0], want_err))
+        nrec = numrecs_of(line)
+        if m.get('numrecs') is not None and nrec is not None and nrec != m['numrecs']:
+            if m['num'] >= 0 and not m['shortcut'] and nrec < m['numrecs']:
+                return ('subset-wait-numrecs-not-updated', '%s R:%d expected numrecs=%d' % (line.split(' | ')[0], nrec, m['numrecs']))
+            return ('wait-numrecs', '%s R:%d expected numrecs=%d' % (line.split(' | ')[0], nrec, m['numrecs']))
         for d in ds:
             if d.startswith('D getbuf-differs'):
                 h = int(d.split()[2][1:])
@@ -455,12 +512,6 @@ def judge_case(lines_out, metas):
                     return ('overlapping-iget-unfilled', d)
                 return ('getbuf-differs', d)
             return ('data-oracle', d)
-    # END-of-case D lines
-    rest = [l for l in out[i:] if l.startswith('D ')]
-    for d in rest:
-        if d.startswith('D file-compare equal'):
-            continue
-        return ('end-of-case', d)
     return None
 
 
@@ -508,6 +559,14 @@ LEAN_FILES = ['PnVerif/Model/Merge.lean', 'PnVerif/Model/ReqQueue.lean', 'PnVeri
 
 def run_check(tier, seed):
     V = Verdict(PROP, tier, seed)
+    if os.environ.get('VERIF_FINDINGS_PREVIEW'):
+        # builder-side preview only: also honour the finding lines PROPOSED in findings/C02.txt (they take
+        # effect for real once the integrator has merged them into KNOWN_FINDINGS.txt)
+        import re as _re
+        for _l in open(os.path.join(VERIF, 'findings', 'C02.txt')):
+            _m = _re.match(r'finding:\s+property=(\S+)\s+sig=(\S+)\s+(.*)$', _l.strip())
+            if _m and _m.group(1) == PROP:
+                V.known.append(dict(sig=_m.group(2), text=_m.group(3)))
     rng = SplitMix64(seed * 1000003 + 2)
     V.assumptions = [
         'MPI semantics assumed (Model/Merge.lean `transfer`): a read/write with an hindexed file type and an hindexed buffer type moves the k-th byte of the flattened buffer type to/from the k-th byte of the flattened file type',
@@ -600,10 +659,10 @@ def run_check(tier, seed):
             lines = ['L %d %s' % (NVARS, ' '.join(str(x) for x in layout))]
             metas = []
             if nr == 1:
-                for fc, fm in zip(FIXED_CASES, FIXED_META):
+                for fc, fm, fflags in FIXED_CASES:
                     lines.append('CASE %d 1 65536' % caseno); caseno += 1
                     lines += fc
-                    metas.append([dict(op='CASE')] + fm)
+                    metas.append([dict(op='CASE', **fflags)] + fm)
             for c in range(ncases[nr]):
                 g = CaseGen(rng, caseno, nr, allow_read_overlap=rng.chance(1, 4), misuse=(nr == 1 and rng.chance(1, 2)))
                 caseno += 1
@@ -623,7 +682,7 @@ def run_check(tier, seed):
                 co = [l for l in open(outp + '.%d' % rank).read().split('\n') if l]
                 pm = subprocess.run([drv, 'nb', str(rank)], input='\n'.join(lines) + '\n', stdout=subprocess.PIPE, stderr=subprocess.PIPE, text=True)
                 mo = [l for l in pm.stdout.split('\n') if l]
-                cnd = [l for l in co if not l.startswith('D ')]
+                cnd = [l for l in co if not l.startswith('D ') and not l.startswith('DE ')]
                 evaluations += len(cnd)
                 if len(cnd) != len(mo):
                     tie_diffs.append(('nb', 'rank %d/%d: %d implementation lines, %d model lines' % (rank, nr, len(cnd), len(mo))))
